@@ -28,6 +28,10 @@ BIG_MESHES = [20, 21]  # a few hundred faces: generated alone (m.big: thin slice
 # the thorough tier adds these rotated / cut / further meshes with one slice of the size-independent knobs
 # (the full knob product is generated on the core meshes = the quick tier's)
 THIN_IN_THOROUGH = [m for m in range(1, 22) if m not in QUICK_MESHES]
+# the quick tier generates the full knob product on seven of its meshes (quads, mixed 3/4, 3/7/8, both meshes with
+# node 0 unused, the regional one, and through m.big the thin slice on the 96-face sphere) and the thin slice on these
+# four; the thorough tier has the full product on all eleven
+QUICK_THIN = [3, 4, 8, 14]
 MESHFILES = os.path.join(os.environ.get("VERIF_REPO", "/repo"), "test", "meshfiles")
 
 # (id, relative path, kwargs, max tier): non-empty sample files
@@ -161,7 +165,7 @@ def run(ctx):
     meshes = ALL_MESHES if thorough else QUICK_MESHES
     only = os.environ.get("C01_ROUTES")
     routes = only.split(",") if only else ROUTES
-    ms, cases = generate(ctx, meshes, routes, thin=THIN_IN_THOROUGH if thorough else ())
+    ms, cases = generate(ctx, meshes, routes, thin=THIN_IN_THOROUGH if thorough else QUICK_THIN)
     mechanism_demo(ctx)
     ctx.exhaustive = True
     ctx.rule = (
